@@ -181,7 +181,7 @@ class VNet:
 
     @staticmethod
     def _deliver(ep: VUdp, data: bytes):
-        if not ep.released:
+        if not ep.closing:       # a closed socket is no longer read, whatever its buffer holds
             ep.protocol.datagram_received(data, ("10.0.0.99", 40000))
 
 
@@ -208,13 +208,14 @@ class VLoop(asyncio.SelectorEventLoop):
         return conn, protocol
 
     async def create_datagram_endpoint(self, protocol_factory, local_addr=None, remote_addr=None, **kw):
-        await asyncio.sleep(0)
+        # as in asyncio: the bind happens at once (and fails at once), the protocol is connected one loop cycle later
         port = local_addr[1]
         if port in self.net.udp or port in self.net.occupied:
             raise OSError(98, f"error while attempting to bind on address {local_addr!r}: address already in use")
         protocol = protocol_factory()
         ep = VUdp(self.net, self, protocol, port)
         self.net.udp[port] = ep
+        await asyncio.sleep(0)
         protocol.connection_made(ep)
         return ep, protocol
 
